@@ -43,6 +43,27 @@ func main() {
 	} {
 		schemas = append(schemas, f)
 	}
+	// the whole format table of gen/schema_gen_primitive.go (a seeded change to the string-encoded
+	// unsigned codecs was missed while only string/int64 was present)
+	seenFmt := map[string]bool{}
+	for _, s := range schemas {
+		if f, ok := s["format"].(string); ok && len(s) == 2 {
+			seenFmt[fmt.Sprint(s["type"], "/", f)] = true
+		}
+	}
+	fmtTable := map[string][]string{
+		"integer": {"int8", "int16", "int32", "int64", "uint", "uint8", "uint16", "uint32", "uint64", "unix", "unix-seconds", "unix-nano", "unix-micro", "unix-milli"},
+		"number":  {"float", "double", "int32", "int64"},
+		"string": {"byte", "base64", "date-time", "date", "time", "duration", "uuid", "mac", "ip", "ipv4", "ipv6", "uri", "password", "email", "hostname",
+			"int", "int8", "int16", "int32", "int64", "uint", "uint8", "uint16", "uint32", "uint64", "unix", "unix-seconds", "unix-nano", "unix-micro", "unix-milli", "float32", "float64"},
+	}
+	for _, typ := range []string{"integer", "number", "string"} {
+		for _, f := range fmtTable[typ] {
+			if !seenFmt[typ+"/"+f] {
+				schemas = append(schemas, M{"type": typ, "format": f})
+			}
+		}
+	}
 	roots := M{}
 	for k, v := range comps {
 		roots[k] = v
@@ -129,9 +150,7 @@ func main() {
 	rb, _ := json.Marshal(reg)
 	sc.CopyDriver("c04", "driver", "refval", "internal/jsonref")
 	sc.Write("driver/roots.json", rb)
-	if err := sc.Build("driver", "driver.bin"); err != nil {
-		vf.Fatal("%v", err)
-	}
+	sc.BuildChecked(r, "driver", "driver.bin")
 	var args []string
 	if r.Replay != "" {
 		var c struct {
